@@ -43,6 +43,15 @@ func (x *Explorer) explore(prefix []int, preBefore int) {
 	if len(e.Points) > x.MaxDepth {
 		x.MaxDepth = len(e.Points)
 	}
+	if e.NoYield != "" {
+		// nothing further can be executed in this process
+		x.Capped = true
+		x.stopped = true
+		if x.Check != nil {
+			x.Check(e)
+		}
+		return
+	}
 	if x.Check != nil && !x.Check(e) {
 		x.stopped = true
 		return
